@@ -57,6 +57,7 @@ package freelist
 //@   ensures [safe] forall p common.Pgid :: gfree[ifaceref(t.Interface)][p] && !old(gfree[ifaceref(t.Interface)][p]) ==> (exists wt common.Txid :: wt <= txid && old(inpend(t, wt, p)))
 //@   ensures [complete] forall tid common.Txid, j int :: tid <= txid && old(has(t.pending, tid)) && 0 <= j && j < old(len(t.pending[tid].ids)) ==> gfree[ifaceref(t.Interface)][old(t.pending[tid].ids[j])]
 //@   ensures [freekept] forall p common.Pgid :: old(gfree[ifaceref(t.Interface)][p]) ==> gfree[ifaceref(t.Interface)][p]
+//@   modifies gfree, mapof(t.pending), all("array.ids"), all("hashMap.freePagesCount"), allmaps("uint64", "freelist.pidSet"), allmaps("common.Pgid", "uint64")
 //@   loop 0 invariant [dom] forall tid common.Txid :: has(t.pending, tid) == (old(has(t.pending, tid)) && !(visited(tid) && tid <= txid))
 //@   loop 0 invariant [vals] forall tid common.Txid :: old(has(t.pending, tid)) ==> t.pending[tid] == old(t.pending[tid])
 //@   loop 0 invariant [vis] forall tid common.Txid :: visited(tid) ==> old(has(t.pending, tid))
